@@ -35,7 +35,7 @@ EXPLANATION = (
     "R14e the line loop delivers the current line once, then increments the counter once, then fetches the next line "
     "once, on every path; the first line is number 1; R14f no dispatcher rebinds its context parameter (the object "
     "whose output file receives the line after the loop); R14g a provider that was consumed by the tokenizer is "
-    "reset before anything reads lines from it; R14h the line providers split the document on the newline character only (no str.splitlines / regular expressions). Not decided: the exact text of each delivered line (final-newline "
+    "reset before anything reads lines from it; R14i all dispatcher calls of one pass use the same per-plugin context map; R14h the line providers split the document on the newline character only (no str.splitlines / regular expressions). Not decided: the exact text of each delivered line (final-newline "
     "arithmetic), which tokens the parser produces."
 )
 ASSUMPTIONS = [
@@ -465,6 +465,34 @@ def r14g(ctx: Context) -> None:
             rule.fail(key, site.where, "the line loop is not fed from a FileSourceProvider")
 
 
+def r14i(ctx: Context) -> None:
+    """Within one pass every dispatcher call uses the same plugin filter (context map)."""
+    prog = ctx.prog
+    rule = ctx.rule("R14i", "all dispatcher calls of one pass use the same per-plugin context map", 3)
+    manager = prog.cls(PM)
+    dispatchers = {manager.methods[name] for name in ("next_token", "next_line", "completed_file") if name in manager.methods}
+    line_loop = prog.method(FSH, "__process_lines_in_file")
+    for func in prog.cls(FSH).methods.values():
+        calls = []
+        for site in prog.sites_in(func):
+            targets = set(site.targets)
+            if targets & dispatchers or line_loop in targets:
+                callee = next(iter(targets & dispatchers), line_loop)
+                bound = Program.bind_args(callee, site.node, skip_self=True)
+                arg = bound.get("context_map")
+                text = None if arg is None or (isinstance(arg, ast.Constant) and arg.value is None) else norm(arg)
+                calls.append((site, callee, text))
+        if len(calls) < 2:
+            continue
+        maps = {text for _, _, text in calls}
+        key = f"{func.short}: context map"
+        if len(maps) == 1:
+            rule.ok(key, f"{len(calls)} dispatcher call(s), all with context_map={next(iter(maps))}")
+        else:
+            odd = next((site, callee) for site, callee, text in calls if text is None) if None in maps else (calls[0][0], calls[0][1])
+            rule.fail(key, odd[0].where, f"{func.short} dispatches {sorted(str(m) for m in maps)} as context maps within one pass: {odd[1].short} reaches plugins that are not part of the pass (a callback without the preceding start/tokens, or with the wrong context)")
+
+
 def r14h(ctx: Context) -> None:
     """Line providers split the document on the newline character and on nothing else."""
     prog = ctx.prog
@@ -510,3 +538,4 @@ def run(ctx: Context) -> None:
     r14f(ctx)
     r14g(ctx)
     r14h(ctx)
+    r14i(ctx)
